@@ -249,8 +249,9 @@ def usesCaps (c : Cfg) : Bool := c.files.any (·.caps.isSome)
 def allProvides (c : Cfg) : List Dep :=
   c.provides ++ [depEq c.name c.version, depEq (c.name ++ [40] ++ c.arch ++ [41]) c.version]
 
-/-- requires after the rpmlib() additions -/
-def allRequires (c : Cfg) : List Dep :=
+/-- requires after the STRUCTURAL rpmlib() additions (compressed file names, file digests, "./" prefix, payload compressor,
+capabilities, large files) — the state of `self.requires` when the content features are looked at -/
+def baseRequires (c : Cfg) : List Dep :=
   c.requires ++
   [rpmlib [67, 111, 109, 112, 114, 101, 115, 115, 101, 100, 70, 105, 108, 101, 78, 97, 109, 101, 115] [51, 46, 48, 46, 52, 45, 49],
    rpmlib [70, 105, 108, 101, 68, 105, 103, 101, 115, 116, 115] [52, 46, 54, 46, 48, 45, 49],
@@ -262,6 +263,38 @@ def allRequires (c : Cfg) : List Dep :=
    | _ => []) ++
   (if usesCaps c then [rpmlib [70, 105, 108, 101, 67, 97, 112, 115] [52, 46, 54, 46, 49, 45, 49]] else []) ++
   (if usesLargeFiles c then [rpmlib [76, 97, 114, 103, 101, 70, 105, 108, 101, 115] [52, 46, 49, 50, 46, 48, 45, 49]] else [])
+
+/-- `version_has(c)`: some dependency version (provides incl. the two self-provides, requires incl. the structural rpmlib() ones,
+obsoletes, conflicts, recommends, suggests, enhances, supplements — the lists as they are at that point) contains the character
+(`str::contains(char)` for an ASCII character = the byte occurs) -/
+def versionHas (c : Cfg) (ch : UInt8) : Bool :=
+  (allProvides c ++ baseRequires c ++ c.obsoletes ++ c.conflicts ++ c.recommends ++ c.suggests ++ c.enhances ++ c.supplements).any
+    fun d => d.version.contains ch
+
+/-- `uses_rich_deps`: a requires / recommends / suggests / supplements / enhances / conflicts name starting with "(" -/
+def usesRichDeps (c : Cfg) : Bool :=
+  (baseRequires c ++ c.recommends ++ c.suggests ++ c.supplements ++ c.enhances ++ c.conflicts).any fun d => d.name.head? == some 40
+
+/-- `uses_interpreter_args`: one of the nine scriptlets has `program: Some(p)` with `p.len() > 1` -/
+def usesInterpArgs (c : Cfg) : Bool :=
+  [c.preIn, c.postIn, c.preUn, c.postUn, c.preTrans, c.postTrans, c.preUntrans, c.postUntrans, c.verify].any fun s =>
+    match s.bind (·.prog) with
+    | some p => decide (1 < p.length)
+    | Option.none => false
+
+/-- one turn of `for (used, feature, version) in content_features`: a feature that is used and not yet required under its
+`rpmlib(…)` name is appended -/
+def pushFeature (reqs : List Dep) (used : Bool) (feature version : Bytes) : List Dep :=
+  if used && !(reqs.any fun d => d.name == (rpmlib feature version).name) then reqs ++ [rpmlib feature version] else reqs
+
+/-- requires after all rpmlib() additions: the structural ones, then TildeInVersions / CaretInVersions / RichDependencies /
+ScriptletInterpreterArgs (the four tests are evaluated before the first of them is pushed) -/
+def allRequires (c : Cfg) : List Dep :=
+  pushFeature (pushFeature (pushFeature (pushFeature (baseRequires c)
+    (versionHas c 126) [84, 105, 108, 100, 101, 73, 110, 86, 101, 114, 115, 105, 111, 110, 115] [52, 46, 49, 48, 46, 48, 45, 49])
+    (versionHas c 94) [67, 97, 114, 101, 116, 73, 110, 86, 101, 114, 115, 105, 111, 110, 115] [52, 46, 49, 53, 46, 48, 45, 49])
+    (usesRichDeps c) [82, 105, 99, 104, 68, 101, 112, 101, 110, 100, 101, 110, 99, 105, 101, 115] [52, 46, 49, 50, 46, 48, 45, 49])
+    (usesInterpArgs c) [83, 99, 114, 105, 112, 116, 108, 101, 116, 73, 110, 116, 101, 114, 112, 114, 101, 116, 101, 114, 65, 114, 103, 115] [52, 46, 48, 46, 51, 45, 49]
 
 /-- recommends after the user()/group() additions (ordered sets since fix 4484349) -/
 def allRecommends (c : Cfg) : List Dep :=
